@@ -295,3 +295,13 @@ def c24(ctx):
                 "contracts (A*inv = I, A*x = b, L*U = A, L*D*L^T = A, Q*R = A with Q^T*Q = I, L*L^T = A) evaluated "
                 "in the exact/modular value domain")
     simple(ctx, "MC_C24", "Trace_C24", floor=0.9)
+
+
+@plan("C10")
+def c10(ctx):
+    ctx.rule = ("TLC enumerates ~500 expressions (algebraic, all trigonometric/hyperbolic functions and their inverses "
+                "composed with 9 inner arguments, products, quotients, powers, nested) and differentiates each by the "
+                "textbook rules of operator D in module Term; the library's derivative (with and without the cache: same "
+                "object), second derivatives and mixed partials must have the value of the model's derivative at every "
+                "assignment where it is defined; the derivative with respect to an absent symbol must be the integer 0")
+    simple(ctx, "MC_C10", "Trace_Val", floor=0.3)
